@@ -206,7 +206,21 @@ impl<'s, R: de::read::take::Take> DecompressionState<'s, R> {
 				deserializer_state,
 				decompression_buffer,
 			} => {
-				let (reader, config) = deserializer_state.into_inner();
+				let (mut reader, config) = deserializer_state.into_inner();
+				// Drive the decompressor to the end of its stream: the block must not hold
+				// more decompressed data than the objects it declared, and the decompressor
+				// has to consume the end of the compressed data (which it may not have pulled
+				// yet) for the check that the whole block was read to be meaningful.
+				if !std::io::BufRead::fill_buf(&mut reader)
+					.map_err(|e| {
+						de::DeError::custom_io("Error when driving decompressor to end of block", e)
+					})?
+					.is_empty()
+				{
+					return Err(de::DeError::new(
+						"There's decompressed data left in the block 							after reading the whole avro block out of it",
+					));
+				}
 				(
 					(match reader.into_inner().into_inner() {
 						#[cfg(feature = "deflate")]
